@@ -1,3 +1,4 @@
+import ast
 from typing import Iterator
 
 from .._change import Change
@@ -8,6 +9,7 @@ from .._utils import normalize
 from .._utils import value_to_token
 from .generic_value import GenericValue
 from .generic_value import clone
+from .undecided_value import contains_unmanaged
 
 
 class MinMaxValue(GenericValue):
@@ -44,6 +46,10 @@ class MinMaxValue(GenericValue):
             # the first comparison raised an exception
             return
 
+        if isinstance(self._ast_node, ast.JoinedStr):
+            # f-strings are not changed
+            return
+
         new_token = value_to_token(self._new_value)
         if not self.cmp(self._old_value, self._new_value):
             flag = "fix"
@@ -51,6 +57,8 @@ class MinMaxValue(GenericValue):
             flag = "trim"
         elif (
             self._ast_node is not None
+            # the parts which are controlled by the user are not changed
+            and not contains_unmanaged(self._old_value, self._ast_node)
             # the tokens of the node are normalized (trailing commas like in `(1,)`)
             and self._file._token_of_node(self._ast_node) != list(normalize(new_token))
         ):
